@@ -1,1 +1,2 @@
 import GinjaxVerif.Properties.C19
+import GinjaxVerif.Properties.C20
